@@ -525,6 +525,13 @@ def _path_form(ctx, rule, f, local, who):
             dot = [c.get("v") for c in alt.consts() if c.get("k") == "str"]
             if "join" in names:
                 ok = dot == ["."] and set(names) <= {"join", "new", "file_name", "path", "as_ref", "deref"} and any(c.a["callee"].endswith("WalkEntry::path") for c in alt.call_nodes())
+                if not ok and dot == ["."] and set(names) <= {"join", "new", "file_name", "path", "as_ref", "deref", "map_or"}:
+                    # `path.file_name().map_or(path, Path::new)`: the last component, or the path itself when there is none
+                    mo = [c for c in alt.call_nodes() if c.a["name"] == "map_or"]
+                    if len(mo) == 1 and len(mo[0].kids) == 3:
+                        k0, k1, k2 = [k_.strip() for k_ in mo[0].kids]
+                        is_path = lambda x_: [c.a["callee"].endswith("WalkEntry::path") for c in x_.call_nodes()] == [True]
+                        ok = [c.a["name"] for c in k0.call_nodes()] == ["file_name", "path"] and is_path(k1) and k2.k == "const" and "Path::new" in str(k2.a.get("text") or k2.a.get("v") or k2.a)
                 kinds.append(("execdir", execdir, ok, alt.fmt()))
             else:
                 ok = set(names) <= {"path", "to_path_buf", "to_owned", "into", "as_ref", "deref"} and any(c.a["callee"].endswith("WalkEntry::path") for c in alt.call_nodes())
